@@ -1749,8 +1749,15 @@ func ruleLIT2(c *Ctx) {
 		ast.Inspect(fd.Body, func(nd ast.Node) bool {
 			switch x := nd.(type) {
 			case *ast.IfStmt:
-				if isStringTest(x.Cond) {
-					check(fd, x.Body)
+				// the branch taken for a string token: the body, or the else
+				// branch of the negated test
+				bare, neg := stripNot(x.Cond)
+				if isStringTest(bare) {
+					if !neg {
+						check(fd, x.Body)
+					} else if x.Else != nil {
+						check(fd, x.Else)
+					}
 				}
 			case *ast.CaseClause:
 				for _, e := range x.List {
